@@ -142,27 +142,39 @@ func TestSecureTransports(t *testing.T) {
 		res.Skip("all: cannot self-generate a certificate: %v", err)
 		return
 	}
-	pTLS, e1 := freePort()
-	pDOH, e2 := freePort()
-	pDOQ, e3 := freePort()
-	if e1 != nil || e2 != nil || e3 != nil {
-		res.Skip("all: no free loopback ports")
-		return
-	}
-	rg, err := newRig(server.VerifC10Opts{UDPSockets: 1, UDPSpare: 0, TCPConns: 256, TCPSmall: 2, TCPLarge: 1}, 1, 1,
-		func(c *config.Config) {
-			c.BindTLS = fmt.Sprintf("127.0.0.1:%d", pTLS)
-			c.BindDOH = fmt.Sprintf("127.0.0.1:%d", pDOH)
-			c.BindDOQ = fmt.Sprintf("127.0.0.1:%d", pDOQ)
-			c.TLSCertificate, c.TLSPrivateKey = certFile, keyFile
-		})
-	if err != nil {
-		res.Skip("all: rig: %v", err)
-		t.Fatalf("rig: %v", err)
-	}
-	waitFor(5*time.Second, func() bool {
+	// the three ports are picked free and closed again before the server binds them, so another
+	// process can take one in between: a leg that does not come up is retried on fresh ports
+	var rg *rig
+	var pTLS, pDOH, pDOQ int
+	allUp := func() bool {
 		return rg.srv.HasListener("tls") && rg.srv.HasListener("doh") && rg.srv.HasListener("doh3") && rg.srv.HasListener("doq")
-	})
+	}
+	for attempt := 0; attempt < 4; attempt++ {
+		var e1, e2, e3 error
+		pTLS, e1 = freePort()
+		pDOH, e2 = freePort()
+		pDOQ, e3 = freePort()
+		if e1 != nil || e2 != nil || e3 != nil {
+			res.Skip("all: no free loopback ports")
+			return
+		}
+		rg, err = newRig(server.VerifC10Opts{UDPSockets: 1, UDPSpare: 0, TCPConns: 256, TCPSmall: 2, TCPLarge: 1}, 1, 1,
+			func(c *config.Config) {
+				c.BindTLS = fmt.Sprintf("127.0.0.1:%d", pTLS)
+				c.BindDOH = fmt.Sprintf("127.0.0.1:%d", pDOH)
+				c.BindDOQ = fmt.Sprintf("127.0.0.1:%d", pDOQ)
+				c.TLSCertificate, c.TLSPrivateKey = certFile, keyFile
+			})
+		if err != nil {
+			res.Skip("all: rig: %v", err)
+			t.Fatalf("rig: %v", err)
+		}
+		waitFor(5*time.Second, allUp)
+		if allUp() || attempt == 3 {
+			break
+		}
+		rg.stop()
+	}
 	up := map[string]bool{}
 	for _, p := range []string{"tls", "doh", "doh3", "doq"} {
 		up[p] = rg.srv.HasListener(p)
